@@ -141,10 +141,60 @@ def merge_lits(pieces):
     return out
 
 
+def _is_directory(t):
+    """t evaluates to a string that ends with a path separator on every branch (or is empty)."""
+    if is_const(t) and isinstance(t[1], str):
+        return t[1] == "" or t[1].endswith("/")
+    if t[0] == "ite":
+        return _is_directory(t[2]) and _is_directory(t[3])
+    if t[0] == "strcat":
+        return _is_directory(t[2]) and not (is_const(t[2]) and t[2][1] == "")
+    if t[0] == "fstr" and t[1]:
+        return _is_directory(t[1][-1])
+    if t[0] == "fmt" and t[2] == -1 and t[3] is None:
+        return _is_directory(t[1])
+    if t[0] == "call" and t[1] in ("os.path.join", "join") and t[2] and is_const(t[2][-1]) and t[2][-1][1] == "":
+        return True
+    return False
+
+
+def _split_directory(name_term, marker):
+    """The name is judged from the literal that contains `marker` ('robot_') on: what precedes it is the directory the file
+    goes to (an --output_dir option, os.path.join) and says nothing about the parameters.  Returns (pieces with the
+    canonical directory 'inputs/', note) or (None, why) when what precedes the marker is not recognisably a directory."""
+    t = name_term
+    lead = []
+    while t[0] == "call" and t[1] in ("os.path.join", "join", "posixpath.join") and len(t[2]) >= 2 and not t[3]:
+        lead += list(t[2][:-1])
+        t = t[2][-1]
+    pieces = merge_lits(flatten_str(t))
+    for i, (k, v) in enumerate(pieces):
+        if k == "lit" and marker in v:
+            pos = v.index(marker)
+            before = pieces[:i] + ([("lit", v[:pos])] if v[:pos] else [])
+            rest = [("lit", v[pos:])] + pieces[i + 1:]
+            if lead and not before:
+                return [("lit", "inputs/" + rest[0][1])] + rest[1:], "directory given by os.path.join"
+            if lead:
+                return None, "a path joined with a name that has its own directory part"
+            if not before:
+                return None, "no directory in front of `%s`" % marker
+            if before == [("lit", "inputs/")]:
+                return [("lit", "inputs/" + rest[0][1])] + rest[1:], ""
+            last = before[-1]
+            if (last[0] == "lit" and last[1].endswith("/")) or (last[0] == "hole" and _is_directory(last[1])):
+                return [("lit", "inputs/" + rest[0][1])] + rest[1:], "directory `%s`" % "".join(x if kk == "lit" else "{%s}" % show(x)[:30] for kk, x in before)
+            return None, "what precedes `%s` is not recognisably a directory (it does not end with '/')" % marker
+    return pieces, ""
+
+
 def template_rule(ctx, chk, rule, f, name_term, table, source_of, tail_spec, head):
     """name_term: symbolic file name; table: [(prefix, parameter, through prob_to_str)]; source_of(param) -> expected hole term."""
-    pieces = merge_lits(flatten_str(name_term))
     where = f.where()
+    pieces, dir_note = _split_directory(name_term, "manual_robot_" if head.endswith("manual_robot_") else "robot_")
+    if pieces is None:
+        chk.undecided(rule, where, "file name `%s`: %s" % (show(name_term)[:160], dir_note))
+        return
     text = "".join(v if k == "lit" else "{%s}" % show(v)[:40] for k, v in pieces)
     # expected alternation lit, hole, lit, hole ...
     i = 0
